@@ -48,7 +48,7 @@ func (in *Interp) bytesOf(v Value) []*Term {
 		return in.strBytes(x)
 	case Slice:
 		if x.Arr.opaque() {
-			panic(abortf("byte-level use of numeric string"))
+			panic(opaqueUse("byte-level use of numeric string"))
 		}
 		b := make([]*Term, x.Len)
 		for i := range b {
@@ -385,6 +385,32 @@ func init() {
 		return in.floatStr(f), true
 	})
 
+	// ---- key hashing: exact (FNV from SSA) by default; with vfOpt("hashuf",1) an uninterpreted
+	// function of the key bytes for symbolic keys (placement is then any consistent assignment)
+	reg(`github.com/innovationb1ue/RedisGO/util.HashKey`, func(in *Interp, th *Thread, fn *ssa.Function, args []Value) (Value, bool) {
+		s := in.str(args[0])
+		if s.IsConcrete() || !in.hashUF {
+			if s.Num != nil || s.FloatOf != nil {
+				if !in.hashUF {
+					panic(pathEnd{Verdict{Kind: "ASSUME", Label: "numeric text used as a key with exact hashing (outside bound)"}})
+				}
+			} else {
+				return nil, false
+			}
+		}
+		var h *Term
+		switch {
+		case s.Num != nil:
+			h = in.ts.UF("hk_num", BV(32), s.Num)
+		case s.FloatOf != nil:
+			h = in.ts.UF("hk_flt", BV(32), s.FloatOf)
+		default:
+			b := in.strBytes(s)
+			h = in.ts.UF(fmt.Sprintf("hk_%d", len(b)), BV(32), b...)
+		}
+		return in.ts.Zext(h, 64), true
+	})
+
 	// ---- misc
 	reg(`github.com/google/uuid.NewString`, func(in *Interp, th *Thread, fn *ssa.Function, args []Value) (Value, bool) {
 		in.uuidN++
@@ -586,7 +612,15 @@ func (in *Interp) newError(msg Str) Value {
 // yield (pf(s), pfok(s)) where the result ranges over every float64 (all are reachable outputs).
 func (in *Interp) parseFloat(s Str) Value {
 	if s.Num != nil {
-		return Tuple{in.ts.IntToF(s.Num, true, F64Sort), Iface{}}
+		if s.Num.IsConst() {
+			return Tuple{in.ts.IntToF(s.Num, true, F64Sort), Iface{}}
+		}
+		// the float value of a symbolic integer text: over-approximated by any finite float in the
+		// int64 range (keeps 64-bit int->float conversion out of the solver)
+		f := in.fresh("numf", "aux", F64Sort)
+		lim := in.ts.F64Const(9.3e18)
+		in.assume(in.ts.And(in.ts.FCmp(OFLe, in.ts.FNeg(lim), f), in.ts.FCmp(OFLe, f, lim)))
+		return Tuple{f, Iface{}}
 	}
 	if s.FloatOf != nil {
 		return Tuple{s.FloatOf, Iface{}}
@@ -598,10 +632,66 @@ func (in *Interp) parseFloat(s Str) Value {
 		}
 		return Tuple{in.ts.F64Const(f), Iface{}}
 	}
-	panic(abortf("strconv.ParseFloat of a byte-level symbolic string (use vfFloatStr)"))
+	return in.parseFloatBytes(in.strBytes(s))
 }
 
 // floatStr is the opaque textual form of a symbolic float.
 func (in *Interp) floatStr(f *Term) Str {
 	return Str{FloatOf: f, S: "<float>"}
+}
+
+// parseFloatBytes: strconv.ParseFloat on byte-level symbolic text. Exact for length <= 2; longer
+// texts get an uninterpreted (but functional) value and validity, so any float64 incl. NaN/Inf is a
+// possible outcome (a counterexample through it must survive the native replay).
+func (in *Interp) parseFloatBytes(b []*Term) Value {
+	ts := in.ts
+	errv := in.newError(Str{S: "strconv.ParseFloat: invalid syntax"})
+	isDigit := func(t *Term) *Term {
+		return ts.And(ts.Cmp(OULe, ts.BVConst(8, '0'), t), ts.Cmp(OULe, t, ts.BVConst(8, '9')))
+	}
+	// digit tables as ite-chains over constants: no floating-point arithmetic on symbolic values
+	table := func(t *Term, f func(d int) float64) *Term {
+		r := ts.F64Const(f(9))
+		for d := 8; d >= 0; d-- {
+			r = ts.Ite(ts.Eq(t, ts.BVConst(8, uint64('0'+d))), ts.F64Const(f(d)), r)
+		}
+		return r
+	}
+	dval := func(t *Term) *Term { return table(t, func(d int) float64 { return float64(d) }) }
+	is := func(t *Term, c byte) *Term { return ts.Eq(t, ts.BVConst(8, uint64(c))) }
+	switch len(b) {
+	case 0:
+		return Tuple{ts.F64Const(0), errv}
+	case 1:
+		if in.branch(isDigit(b[0]), "parsefloat") {
+			return Tuple{dval(b[0]), Iface{}}
+		}
+		return Tuple{ts.F64Const(0), errv}
+	case 2:
+		dd := ts.And(isDigit(b[0]), isDigit(b[1]))
+		pd := ts.And(is(b[0], '+'), isDigit(b[1]))
+		md := ts.And(is(b[0], '-'), isDigit(b[1]))
+		dp := ts.And(isDigit(b[0]), is(b[1], '.'))
+		pt := ts.And(is(b[0], '.'), isDigit(b[1]))
+		ok := ts.Or(dd, ts.Or(pd, ts.Or(md, ts.Or(dp, pt))))
+		if !in.branch(ok, "parsefloat") {
+			return Tuple{ts.F64Const(0), errv}
+		}
+		two := ts.F64Const(99)
+		for d0 := 9; d0 >= 0; d0-- {
+			d0 := d0
+			two = ts.Ite(ts.Eq(b[0], ts.BVConst(8, uint64('0'+d0))), table(b[1], func(d int) float64 { return float64(10*d0 + d) }), two)
+		}
+		v := ts.Ite(dd, two,
+			ts.Ite(pd, dval(b[1]),
+				ts.Ite(md, table(b[1], func(d int) float64 { return -float64(d) }),
+					ts.Ite(dp, dval(b[0]), table(b[1], func(d int) float64 { return float64(d) / 10 })))))
+		return Tuple{v, Iface{}}
+	}
+	n := len(b)
+	okT := ts.UF(fmt.Sprintf("pfok_%d", n), BoolSort, b...)
+	if !in.branch(okT, "parsefloat") {
+		return Tuple{ts.F64Const(0), errv}
+	}
+	return Tuple{ts.UF(fmt.Sprintf("pf_%d", n), F64Sort, b...), Iface{}}
 }
